@@ -522,6 +522,20 @@ func runC03Parked(c c03ParkCase) (r pbt.Result) {
 			fail(step, "finished without being terminated")
 			return false
 		}
+		select {
+		case <-st.Context().Done():
+			// the stream's context ends when the stream is finished, not earlier: Conn.Unblocked (and with it the
+			// connection pool) takes it as "this stream no longer uses the transport"
+			if !fin {
+				fail(step, "the stream's context is done although the stream is not finished")
+				return false
+			}
+		default:
+			if fin {
+				fail(step, "the stream is finished but its context is not done")
+				return false
+			}
+		}
 		if parked && fin {
 			fail(step, "stream reported finished while a write is still inside the transport")
 			return false
